@@ -4,6 +4,7 @@
 From Coq Require Import String Ascii List Bool Arith NArith ZArith Lia.
 From Raven Require Import Base.GoStr Base.GoStrFacts Model.Search Model.SearchText Spec.Search Model.SearchClass
   Proof.SearchTok Proof.SearchAtoms Proof.SearchDate.
+From Raven Require Model.SeqSet Spec.SeqSet Proof.SeqSetParse Proof.FetchSearchExact.
 Import ListNotations.
 Local Open Scope Z_scope.
 Local Arguments Ascii.eqb : simpl never.
@@ -31,10 +32,10 @@ Lemma el_keyword w rest : EL (S_ "KEYWORD" :: w :: rest) = andk (has_flag_go (m_
 Proof. reflexivity. Qed.
 Lemma el_unkeyword w rest : EL (S_ "UNKEYWORD" :: w :: rest) = andk (negb (has_flag_go (m_flags m) (unquote w))) (EK rest).
 Proof. reflexivity. Qed.
-Lemma el_seq t rest : is_group (to_upper t) = false -> is_sequence_set (to_upper t) = true ->
-  EL (t :: rest) = andk (matches_sequence_set (m_seq m) (to_upper t)) (EK rest).
+Lemma el_seq t rest : is_group (to_upper t) = false -> Model.SeqSet.is_sequence_set (to_upper t) = true ->
+  EL (t :: rest) = andk (Model.SeqSet.matches_sequence_set (m_seq m) (to_upper t) (m_maxseq m)) (EK rest).
 Proof. intros G H. cbn [eval_loop]. now rewrite G, H. Qed.
-Lemma el_uid a rest : EL (S_ "UID" :: a :: rest) = andk (matches_sequence_set (m_uid m) a) (EK rest).
+Lemma el_uid a rest : EL (S_ "UID" :: a :: rest) = andk (Model.SeqSet.matches_sequence_set (m_uid m) a (m_maxuid m)) (EK rest).
 Proof. reflexivity. Qed.
 Lemma el_hdr h a rest : EL (hdr_token h :: a :: rest) = andk (matches_header_or_body m (hdr_kw h) (unquote a)) (EK rest).
 Proof. destruct h; reflexivity. Qed.
@@ -97,6 +98,45 @@ Proof.
   unfold is_group. destruct (rev r); [reflexivity|]. now rewrite E.
 Qed.
 
+(** printed sets: sequence-set characters only, first one a digit or "*" *)
+Lemma print_set_facts s : Spec.SeqSet.wf s = true ->
+  to_upper (Spec.SeqSet.print s) = Spec.SeqSet.print s
+  /\ Model.SeqSet.is_sequence_set (Spec.SeqSet.print s) = true
+  /\ FetchSearchExact.head_ok (Spec.SeqSet.print s) = true
+  /\ forallb FetchSearchExact.seqchar (Spec.SeqSet.print s) = true.
+Proof.
+  intros H. destruct (SeqSetParse.wf_forall s H) as [_ Hall].
+  assert (SC : forallb FetchSearchExact.seqchar (Spec.SeqSet.print s) = true).
+  { unfold Spec.SeqSet.print. apply FetchSearchExact.join_seqchar. intros x Hx. apply in_map_iff in Hx. destruct Hx as (it & <- & Hit).
+    now apply FetchSearchExact.print_item_seqchar, Hall. }
+  pose proof (FetchSearchExact.print_head s H) as Hd.
+  split; [now apply FetchSearchExact.to_upper_seqchars|]. split; [|split; [exact Hd | exact SC]].
+  unfold Model.SeqSet.is_sequence_set. destruct (str_eqb (Spec.SeqSet.print s) Model.SeqSet.s_star); [reflexivity|].
+  unfold FetchSearchExact.head_ok in Hd.
+  assert (E : forallb (fun c => Ascii.eqb c Model.SeqSet.c_colon || Ascii.eqb c Model.SeqSet.c_star || Ascii.eqb c Model.SeqSet.c_comma || is_digit c) (Spec.SeqSet.print s) = true)
+    by exact SC.
+  rewrite E. exact Hd.
+Qed.
+
+Lemma head_cases t : FetchSearchExact.head_ok t = true -> exists c r, t = c :: r /\ (is_digit c = true \/ c = star).
+Proof.
+  destruct t as [|c r]; [discriminate|]. cbn. intros H. exists c, r. split; [reflexivity|].
+  apply orb_true_iff in H as [H | H]; [now left | right; now apply Ascii.eqb_eq in H].
+Qed.
+
+Lemma kw_of_star r : kw_of (star :: r) = None.
+Proof. reflexivity. Qed.
+
+Lemma head_facts t : FetchSearchExact.head_ok t = true -> to_upper t = t ->
+  kw_of t = None /\ is_group t = false /\ ra t = false.
+Proof.
+  intros H U. destruct (head_cases t H) as (c & r & -> & [D | ->]).
+  - split; [now apply kw_of_digit|]. split; [now apply is_group_digit|].
+    unfold ra. rewrite U. unfold requires_argument. now rewrite (kw_of_digit c r D).
+  - split; [reflexivity|]. split; [unfold is_group; destruct (rev r); reflexivity|].
+    unfold ra. rewrite U. reflexivity.
+Qed.
+
 Lemma in_numbered {A} (l : list A) : forall i j x, In (j, x) (number_from i l) -> In x l.
 Proof.
   induction l as [|y l IH]; intros i j x H; [contradiction|]. simpl in H. destruct H as [E | H].
@@ -125,25 +165,27 @@ Definition atomic (k : key) : Prop := match k with KNot _ | KOr _ _ | KGroup _ =
 
 Section Step.
 Variable f : nat.
-Variables (nseq maxuid : Z).
 Variable mb : list smsg.
+Notation nseq := (Z.of_nat (length mb)).
+Notation maxuid := (last_uid mb).
 Variables (i : Z) (sm : smsg).
 Hypothesis Hin : In (i, sm) (numbered mb).
 Hypothesis Hmb : mb_ok mb = true.
-Notation m := (to_msg (i, sm)).
+Notation m := (to_msg mb (i, sm)).
 Notation EL := (eval_loop go_text m (S f)).
 Notation EK := (eval_loop go_text m f).
 Notation SP := (spec_eval nseq maxuid).
 
 Lemma flag_step w : has_flag_go (m_flags m) w = has_flag sm w.
 Proof.
-  cbn [to_msg m_flags]. unfold has_flag. apply flag_test_go.
-  unfold mb_ok in Hmb. rewrite forallb_forall in Hmb. apply Hmb. eapply in_numbered. exact Hin.
+  cbn [to_msg to_msg_in m_flags]. unfold has_flag. apply flag_test_go.
+  unfold mb_ok in Hmb. apply andb_true_iff in Hmb as [Hmb' _]. apply andb_true_iff in Hmb' as [Hf _].
+  rewrite forallb_forall in Hf. apply Hf. eapply in_numbered. exact Hin.
 Qed.
 
-Lemma text_step k : text_class k mb = None -> text_agree_on k (i, sm) = true.
+Lemma text_step k : text_class k mb = None -> text_agree_on mb k (i, sm) = true.
 Proof.
-  unfold text_class. destruct (forallb (text_agree_on k) (numbered mb)) eqn:E; [|discriminate].
+  unfold text_class. destruct (forallb (text_agree_on mb k) (numbered mb)) eqn:E; [|discriminate].
   intros _. rewrite forallb_forall in E. now apply E.
 Qed.
 
@@ -160,39 +202,12 @@ Proof.
     rewrite el_keyword, unquote_plain by assumption. now rewrite flag_step.
   - (* UNKEYWORD *) cbn [wf_key] in W. destruct (atom_facts w W) as (A1 & A2 & A3 & A4 & _).
     rewrite el_unkeyword, unquote_plain by assumption. now rewrite flag_step.
-  - (* sequence set *) cbn [wf_key] in W. unfold set_class in C.
-    destruct s as [|[[d|]|[a|] [b|]] [|? ?]]; try discriminate.
-    + unfold set_ok in W. cbn in W. rewrite andb_true_r in W.
-      destruct (numeral_digits d W) as [Hd Hne].
-      unfold print_set. cbn [map join print_item print_snum].
-      assert (U : to_upper d = d) by (apply to_upper_nolower; now apply digits_nolower).
-      assert (G : is_group d = false).
-      { destruct d as [|c0 d0]; [congruence|]. apply is_group_digit. cbn in Hd. now apply andb_true_iff in Hd. }
-      rewrite el_seq; [| now rewrite U | rewrite U; now apply is_seqset_digits]. rewrite U, mss_one by exact W.
-      cbn [to_msg m_seq spec_eval set_has existsb item_has snum_val]. now rewrite orb_false_r.
-    + destruct (digits_val a 0 <=? digits_val b 0) eqn:Le; [|discriminate]. apply Z.leb_le in Le.
-      unfold set_ok in W. cbn in W. rewrite andb_true_r in W. apply andb_true_iff in W as [Wa Wb].
-      destruct (numeral_digits a Wa) as [Hda Hnea]. destruct (numeral_digits b Wb) as [Hdb Hneb].
-      unfold print_set. cbn [map join print_item print_snum].
-      assert (U : to_upper (a ++ colon :: b) = a ++ colon :: b).
-      { apply to_upper_nolower. rewrite forallb_app. rewrite (digits_nolower a Hda). cbn [forallb]. now rewrite (digits_nolower b Hdb). }
-      assert (G : is_group (a ++ colon :: b) = false).
-      { destruct a as [|c0 a0]; [congruence|]. apply is_group_digit. cbn in Hda. now apply andb_true_iff in Hda. }
-      rewrite el_seq; [| now rewrite U | rewrite U; now apply is_seqset_range]. rewrite U, mss_range by assumption.
-      cbn [to_msg m_seq spec_eval set_has existsb item_has snum_val]. rewrite orb_false_r.
-      now rewrite Z.min_l, Z.max_r by lia.
-  - (* UID set *) cbn [wf_key] in W. unfold set_class in C.
-    destruct s as [|[[d|]|[a|] [b|]] [|? ?]]; try discriminate.
-    + unfold set_ok in W. cbn in W. rewrite andb_true_r in W.
-      unfold print_set. cbn [map join print_item print_snum].
-      rewrite el_uid, mss_one by exact W.
-      cbn [to_msg m_uid spec_eval set_has existsb item_has snum_val]. now rewrite orb_false_r.
-    + destruct (digits_val a 0 <=? digits_val b 0) eqn:Le; [|discriminate]. apply Z.leb_le in Le.
-      unfold set_ok in W. cbn in W. rewrite andb_true_r in W. apply andb_true_iff in W as [Wa Wb].
-      unfold print_set. cbn [map join print_item print_snum].
-      rewrite el_uid, mss_range by assumption.
-      cbn [to_msg m_uid spec_eval set_has existsb item_has snum_val]. rewrite orb_false_r.
-      now rewrite Z.min_l, Z.max_r by lia.
+  - (* sequence set *) cbn [wf_key] in W. unfold set_ok in W.
+    destruct (print_set_facts s W) as (U & IS & HD & _). destruct (head_facts _ HD U) as (_ & G & _).
+    rewrite el_seq; [| now rewrite U | now rewrite U]. rewrite U.
+    cbn [to_msg to_msg_in m_seq m_maxseq spec_eval]. now rewrite (FetchSearchExact.matches_set_exact s _ i W).
+  - (* UID set *) cbn [wf_key] in W. unfold set_ok in W. rewrite el_uid.
+    cbn [to_msg to_msg_in m_uid m_maxuid spec_eval]. now rewrite (FetchSearchExact.matches_set_exact s _ (s_uid sm) W).
   - (* BCC CC FROM SUBJECT TO *) rewrite el_hdr. unfold quote. rewrite unquote_quote.
     pose proof (text_step _ C) as A. cbn [text_agree_on snd] in A. apply eqb_prop in A. now rewrite A.
   - (* HEADER *) rewrite el_header. unfold quote. rewrite !unquote_quote.
@@ -211,7 +226,7 @@ Proof.
         repeat match goal with X : negb _ = true |- _ => apply negb_true_iff in X end. assumption. }
     rewrite U. destruct sent.
     + pose proof (text_step _ C) as A. cbn [text_agree_on snd] in A. apply eqb_prop in A. now rewrite A.
-    + unfold matches_date. rewrite (parse_print_date d W). cbn [spec_eval to_msg m_idate].
+    + unfold matches_date. rewrite (parse_print_date d W). cbn [spec_eval to_msg to_msg_in m_idate].
       destruct (sdate_val d); reflexivity.
 Qed.
 End Step.
